@@ -96,6 +96,23 @@ def check_arm(chk, f, name, enum, av, arm, sw_bb):
     polls = [bb for bb, t in f.b.calls() if callee(t) == NEXT and bb in region]
     chk.require(not polls, "C20/no-continue", inst, "after an abort the reply stream is polled again (the abort is swallowed)",
                 "arm leaves the loop", f.sp(arm))
+    # a code without an entry in the message table must keep its identity: the Option returned by
+    # from_u8(code) may only be consumed by `ok_or(<error naming the code>)` or by a match
+    for bb, t in f.b.calls():
+        if bb not in region or not t["args"]:
+            continue
+        a0 = strip_ref(f.ex.operand(t["args"][0]))
+        if a0[0] == "call" and a0[1].endswith("FromPrimitive::from_u8") and mentions_error_field(a0):
+            n = callee(t)
+            if n == "core::option::Option::<T>::ok_or":
+                alt = f.ex.operand(t["args"][1])
+                chk.require(mentions_error_field(alt), "C20/unknown-code-keeps-identity", inst,
+                            "a result code without message-table entry is reported as %s, which does not name the code" % show(alt)[:80],
+                            "ok_or(error naming the code)", f.sp(bb))
+            elif n.startswith("core::option::Option::<T>::") and n.rsplit("::", 1)[-1] not in ("is_some", "is_none", "as_ref", "ok_or_else"):
+                chk.fail("C20/unknown-code-keeps-identity", inst,
+                         "result codes without an entry in the message table are replaced through %s: the error no longer identifies "
+                         "the code for those codes" % n.rsplit("::", 1)[-1], f.sp(bb))
     rets = [(bb, e) for bb, e in f.ret_writes() if bb in region]
     exc = EXCEPTIONS.get(name)
     if name in ANSWER_IS_ABORT:
